@@ -40,8 +40,15 @@ func sp(s string) *string { return &s }
 
 var userAlphabet = []string{"a", "b", "z", "A", "Q", "0", "7", "_", ".", "@", "-", "$", "é", "日", "🏝", "ö", "\u0130", "\u023a", "\u212a", "\u0131"}
 
+// blankRunNames: account names are client-chosen text; sshd prints them as they are, runs of blanks and tabs included
+var blankRunNames = []string{"a  b", "x   y", "tab\tbed", "j  r  r", "Doe,  John", " lead", "trail ", "  two", "two  ", "a \t b", "\t"}
+
 func genUser(r *hutil.Rand) string {
-	switch r.Intn(8) {
+	switch r.Intn(9) {
+	case 8:
+		if r.Chance(1, 2) {
+			return hutil.Pick(r, blankRunNames)
+		}
 	case 0:
 		return "root"
 	case 1:
@@ -669,6 +676,10 @@ func genTokenReplaced(r *hutil.Rand, idx int) genLine {
 	}
 	toks := strings.Split(base, " ")
 	pos := (idx / len(clientFormsAndAll)) % len(toks)
+	if (idx/len(clientFormsAndAll))%2 == 1 {
+		// every other round a position of its own per form, so that a short run does not stay inside the keywords
+		pos = r.Intn(len(toks))
+	}
 	h := genHostileToken(r)
 	switch r.Intn(8) {
 	case 0: // the token gone (two blanks in a row stay)
